@@ -18,6 +18,7 @@ from ..seams.simfs import SimFS, SimFile, patched_open
 from ..seams.simaddr import SimAddresses
 
 TREE_ROUTES = ["treelist_get", "treelist_get_stream", "treelist_get_path", "tree_get", "treelist_read", "treelist_read_into_nonempty",
+               "treelist_read_offset", "treelist_get_offset",
                "yield", "yield", "treearray_read", "dataset_get", "dataset_read", "treelist_get_collection"]
 MATRIX_ROUTES = ["matrix_get", "matrix_get_stream", "matrix_get_path", "dataset_matrix"]
 
@@ -45,14 +46,19 @@ def canon_matrix(m):
             "subsets": sorted((k, sorted(v.character_indices)) for k, v in m.character_subsets.items())}
 
 
-def make_tree_doc(rng):
-    fam = rng.choice(["newick", "nexus", "nexus", "nexml"])
-    n = rng.randint(2, 6)
-    style = rng.choice(["plain", "alpha", "under", "quoted", "spaced"])
-    labs = gen.labels(rng, n, style)
+def make_tree_doc(rng, like=None):
+    if like is None:
+        fam = rng.choice(["newick", "nexus", "nexus", "nexml"])
+        n = rng.randint(2, 6)
+        style = rng.choice(["plain", "alpha", "under", "quoted", "spaced"])
+        labs = gen.labels(rng, n, style)
+    else:
+        fam, labs, style = like["schema"], list(like["labels"]), like["style"]
+        n = len(labs)
     meta = rng.random() < 0.4
     weights = rng.random() < 0.3
-    quote = gen.raw_underscore_quote if (style == "under" and rng.random() < 0.6) else gen.nexus_quote
+    quote = gen.raw_underscore_quote if (style == "under" and (like["raw"] if like is not None else rng.random() < 0.6)) else gen.nexus_quote
+    raw = quote is gen.raw_underscore_quote
     block_comments = rng.random() < 0.4
 
     def tree_text():
@@ -69,7 +75,7 @@ def make_tree_doc(rng):
     if fam == "newick":
         ntrees = rng.randint(1, 4)
         text = "\n".join(tree_text() for _ in range(ntrees)) + "\n"
-        return {"schema": "newick", "text": text, "collections": [ntrees], "labels": labs}
+        return {"schema": "newick", "text": text, "collections": [ntrees], "labels": labs, "style": style, "raw": raw}
     if fam == "nexus":
         nblocks = rng.choice([1, 1, 2])
         text = "#NEXUS\n%sBEGIN TAXA;\n  DIMENSIONS NTAX=%d;\n  TAXLABELS %s;\nEND;\n" % (
@@ -79,9 +85,13 @@ def make_tree_doc(rng):
             text += "BEGIN TREES;\n"
             if block_comments and rng.random() < 0.7:
                 text += rng.choice(["  [block comment]\n", "  [&blockmeta=1]\n", "  [one] [two]\n"])
-            translate = rng.random() < 0.4
+            translate = rng.random() < (0.4 if like is None else 0.8)
+            order = list(range(len(labs)))
             if translate:
-                text += "  TRANSLATE\n" + ",\n".join("    %d %s" % (i + 1, quote(l)) for i, l in enumerate(labs)) + "\n  ;\n"
+                if like is not None or rng.random() < 0.5:
+                    rng.shuffle(order)          # TRANSLATE numbering that differs from the TAXA block order / from the other document
+                num = dict((l, order.index(i) + 1) for i, l in enumerate(labs))
+                text += "  TRANSLATE\n" + ",\n".join("    %d %s" % (num[l], quote(l)) for l in sorted(labs, key=lambda x: num[x])) + "\n  ;\n"
                 if block_comments and rng.random() < 0.5:
                     text += "  [after translate]\n"
             k = rng.randint(1, 3)
@@ -89,14 +99,14 @@ def make_tree_doc(rng):
                 s = tree_text()
                 if translate:
                     for i2, l in sorted(enumerate(labs), key=lambda x: -len(x[1])):
-                        s = s.replace(quote(l), "\x00%d\x00" % (i2 + 1))
+                        s = s.replace(quote(l), "\x00%d\x00" % num[l])
                     s = s.replace("\x00", "")
                 text += "  TREE %s = %s\n" % (rng.choice(["t%d" % i, "'tree %d'" % i]), s)
                 if block_comments and rng.random() < 0.3:
                     text += "  [between trees]\n"
             text += "END;\n"
             cols.append(k)
-        return {"schema": "nexus", "text": text, "collections": cols, "labels": labs}
+        return {"schema": "nexus", "text": text, "collections": cols, "labels": labs, "style": style, "raw": raw}
     # nexml: written by the library (no template writer of our own)
     ns = dendropy.TaxonNamespace(labs)
     tl = dendropy.TreeList(taxon_namespace=ns)
@@ -104,7 +114,7 @@ def make_tree_doc(rng):
     for _ in range(k):
         spec = gen.tree_spec(rng, labs, rng.choice(["binary", "poly", "caterpillar"]), rng.choice(["int", "float"]))
         tl.append(gen.build_tree(dendropy, spec, ns, is_rooted=rng.choice([True, False])))
-    return {"schema": "nexml", "text": tl.as_string(schema="nexml"), "collections": [k], "labels": labs}
+    return {"schema": "nexml", "text": tl.as_string(schema="nexml"), "collections": [k], "labels": labs, "style": style, "raw": raw}
 
 
 def make_matrix_doc(rng):
@@ -151,7 +161,10 @@ class C13(Machine):
                     opts["extract_comment_metadata"] = rng.random() < 0.5
                 if rng.random() < 0.2:
                     opts["suppress_internal_node_taxa"] = False
-            steps = [{"op": "call", "route": "treelist_get", "short": 0}]
+            docs_ = [d]
+            if rng.random() < 0.4:
+                docs_.append(make_tree_doc(rng, like=d))      # same labels, other trees, other TRANSLATE numbering
+            steps = [{"op": "call", "route": "treelist_get", "short": 0, "doc": 0}]
             for _ in range(rng.randint(1, 7)):
                 r = rng.random()
                 if r < 0.3:
@@ -160,10 +173,11 @@ class C13(Machine):
                     steps.append({"op": "close", "k": rng.randrange(100)})
                 else:
                     steps.append({"op": "call", "route": rng.choice(TREE_ROUTES), "short": rng.choice([0, 0, 1, 3, 64]),
-                                  "ci": rng.randrange(10), "ti": rng.randrange(10), "seed": rng.getrandbits(30)})
-            return {"config": {"kind": kind, "schema": d["schema"], "opts": opts, "collections": d["collections"], "labels": d["labels"],
-                               "addr_seed": rng.getrandbits(32)},
-                    "initial": {"text": d["text"]}, "steps": steps}
+                                  "ci": rng.randrange(10), "ti": rng.randrange(10), "seed": rng.getrandbits(30),
+                                  "doc": rng.randrange(len(docs_)), "off": rng.randint(-4, 4)})
+            return {"config": {"kind": kind, "schema": d["schema"], "opts": opts, "collections": [x["collections"] for x in docs_],
+                               "labels": d["labels"], "addr_seed": rng.getrandbits(32)},
+                    "initial": {"texts": [x["text"] for x in docs_]}, "steps": steps}
         d = make_matrix_doc(rng)
         steps = [{"op": "call", "route": rng.choice(MATRIX_ROUTES), "short": rng.choice([0, 1, 3]), "seed": rng.getrandbits(30)}
                  for _ in range(rng.randint(2, 5))]
@@ -192,29 +206,42 @@ class C13(Machine):
 
     def _run_trees(self, plan, rec):
         cfg = plan["config"]
-        text = plan["initial"]["text"]
+        texts = plan["initial"]["texts"]
         schema = cfg["schema"]
         opts = dict(cfg["opts"])
-        cols = cfg["collections"]
-        # reference, run alone
-        try:
-            r_all = dendropy.TreeList.get(data=text, schema=schema, **opts)
-            r_cols = [dendropy.TreeList.get(data=text, schema=schema, collection_offset=i, **opts) for i in range(len(cols))]
-        except Exception as e:
-            rec.probe("reference_read_failed")      # C20/C02 territory: nothing to compare routes against
-            rec.ev("reference_failed", type(e).__name__)
-            return
-        ref_all = [canon_tree(t) for t in r_all]
-        ref_cols = [[canon_tree(t) for t in c] for c in r_cols]
-        if [len(c) for c in ref_cols] != list(cols) or sum(cols) != len(ref_all):
-            rec.violation("REFERENCE_INCONSISTENT", {"schema": schema},
-                          "TreeList.get delivers %d trees, per collection %s, document holds %s" % (len(ref_all), [len(c) for c in ref_cols], cols))
-            return
+        all_cols = cfg["collections"]
+        refs = []
+        for text, cols in zip(texts, all_cols):
+            # reference, run alone
+            try:
+                r_all = dendropy.TreeList.get(data=text, schema=schema, **opts)
+                r_cols = [dendropy.TreeList.get(data=text, schema=schema, collection_offset=i, **opts) for i in range(len(cols))]
+            except Exception as e:
+                rec.probe("reference_read_failed")      # C20/C02 territory: nothing to compare routes against
+                rec.ev("reference_failed", type(e).__name__)
+                return
+            ref_all = [canon_tree(t) for t in r_all]
+            ref_cols = [[canon_tree(t) for t in c] for c in r_cols]
+            if [len(c) for c in ref_cols] != list(cols) or sum(cols) != len(ref_all):
+                rec.violation("REFERENCE_INCONSISTENT", {"schema": schema},
+                              "TreeList.get delivers %d trees, per collection %s, document holds %s" % (len(ref_all), [len(c) for c in ref_cols], cols))
+                return
+            refs.append((text, cols, ref_all, ref_cols))
         ns = dendropy.TaxonNamespace()
         iters = []          # [iterator, delivered canon list, done]
         routes = []
         pattern = []
         accum = dendropy.TreeList(taxon_namespace=ns)
+        # documented exclusion: a live iterator's namespace must not gain taxa through another call, so the shared
+        # namespace is pre-populated with every label of every document of the session by complete reads
+        for text, cols, ref_all, ref_cols in refs[1:]:
+            got = [canon_tree(t) for t in dendropy.TreeList.get(data=text, schema=schema, taxon_namespace=ns, **opts)]
+            first = [canon_tree(t) for t in dendropy.TreeList.get(data=refs[0][0], schema=schema, taxon_namespace=ns, **opts)]
+            if got != ref_all or first != refs[0][2]:
+                d = _first_diff(got, ref_all) if got != ref_all else _first_diff(first, refs[0][2])
+                rec.violation("ROUTE_DIFFERS", {"schema": schema, "route": "treelist_get_shared_namespace", "what": d[0]},
+                              "TreeList.get into the shared namespace delivers other data than alone: %s" % d[1])
+                raise StopRun()
         for i, st in enumerate(plan["steps"]):
             rec.step_index = i
             rec.steps += 1
@@ -224,7 +251,7 @@ class C13(Machine):
                     continue
                 it = live[st["k"] % len(live)]
                 for _ in range(st["n"]):
-                    self._advance(rec, it, ref_all, schema, ns)
+                    self._advance(rec, it, it[3], schema, ns)
                 pattern.append("a")
                 continue
             if st["op"] == "close":
@@ -239,7 +266,8 @@ class C13(Machine):
                 continue
             route = st["route"]
             routes.append(route)
-            pattern.append("r")
+            pattern.append("r" if st.get("doc", 0) % len(refs) == 0 else "R")
+            text, cols, ref_all, ref_cols = refs[st.get("doc", 0) % len(refs)]
             try:
                 got, want = self._call_tree_route(rec, route, st, text, schema, opts, ns, cols, ref_all, ref_cols, iters, accum)
             except StopRun:
@@ -260,7 +288,7 @@ class C13(Machine):
         # drain every live iterator
         for it in iters:
             while not it[2]:
-                self._advance(rec, it, ref_all, schema, ns)
+                self._advance(rec, it, it[3], schema, ns)
         self._taxa_check(rec, ns, "final")
         # the namespace is still usable: a document with a new label reads as it does alone
         del iters[:]
@@ -330,9 +358,26 @@ class C13(Machine):
             n0 = len(accum)
             accum.read(file=self._stream(text, st, rec), schema=schema, **kw)
             return [canon_tree(t) for t in list(accum)[n0:]], ref_all
+        if route in ("treelist_read_offset", "treelist_get_offset"):
+            ci = st["ci"] % len(cols)
+            off = st.get("off", 0)
+            if not (-cols[ci] <= off < cols[ci]):
+                off = off % cols[ci]
+            want = ref_cols[ci][off:]
+            if route == "treelist_get_offset":
+                got = dendropy.TreeList.get(data=text, schema=schema, taxon_namespace=ns, collection_offset=ci, tree_offset=off, **kw)
+                return [canon_tree(t) for t in got], want
+            n0 = len(accum)
+            n = accum.read(data=text, schema=schema, collection_offset=ci, tree_offset=off, **kw)
+            got = [canon_tree(t) for t in list(accum)[n0:]]
+            if n != len(got):
+                rec.violation("ROUTE_DIFFERS", {"schema": schema, "route": route, "what": "reported_count"},
+                              "read(tree_offset=%d) into a list of %d trees reports %s trees but added %d" % (off, n0, n, len(got)))
+                raise StopRun()
+            return got, want
         if route == "yield":
             it = dendropy.Tree.yield_from_files(files=[self._stream(text, st, rec)], schema=schema, taxon_namespace=ns, **kw)
-            iters.append([iter(it), [], False])
+            iters.append([iter(it), [], False, ref_all])
             rec.probe("iterator_started")
             return None, None
         if route == "treearray_read":
